@@ -829,6 +829,42 @@ func runR_C14(c *Ctx) {
 			case "unique":
 				issues = checkUnique(l)
 			}
+			// the roles of the parameters are fixed by the specification (order from the first list, membership in the
+			// second, …): a parameter is never rebound, except the documented `this = append(this, …)` of union and the
+			// in-place compaction of filter/unique
+			ast.Inspect(fn.Body, func(n ast.Node) bool {
+				as, ok := n.(*ast.AssignStmt)
+				if !ok || as.Tok != token.ASSIGN {
+					return true
+				}
+				for i, lh := range as.Lhs {
+					id, ok := lh.(*ast.Ident)
+					if !ok {
+						continue
+					}
+					isParam := false
+					for _, pn := range l.params {
+						if pn == id.Name {
+							isParam = true
+						}
+					}
+					if !isParam {
+						continue
+					}
+					if i < len(as.Rhs) && len(as.Lhs) == len(as.Rhs) {
+						if call, ok := as.Rhs[i].(*ast.CallExpr); ok {
+							if f, ok := call.Fun.(*ast.Ident); ok && f.Name == "append" && len(call.Args) > 0 && canon(call.Args[0]) == id.Name {
+								continue
+							}
+						}
+						if sl, ok := as.Rhs[i].(*ast.SliceExpr); ok && canon(sl.X) == id.Name {
+							continue
+						}
+					}
+					issues = append(issues, l.issue(as, "param-rebound", "rebinds the parameter %s (%s): the lists' roles are no longer the ones the specification fixes (result order, which list is searched)", id.Name, rs.src(as)))
+				}
+				return true
+			})
 			seen[p]++
 			if reportIssues(c, rs, "R-guard", "", issues) {
 				c.Rep.pass("R-guard")
